@@ -1,572 +1,716 @@
 """C18 - PoolSum denotes the finite sum over its index pools.
 
-How the code is read.  Every rule of this property states what a method of ``PoolSum`` COMPUTES.  The methods
-are therefore *interpreted* (``sa/pyexec.py``: nothing of the package is imported or run by CPython) on model
-sums built in a small SymPy world (``SymWorld``: hash-consed expression nodes, symbols, values, ``subs`` that
-consults the class's own ``_eval_subs``, structural ``xreplace``) and the result is compared with the
-DENOTATION of the model sum, computed by this file from the definition: the multiset of summand instances
-over the cartesian product of the pools, with binding-aware substitution.  The spelling of the method -
-comprehension, loop, ``map`` over a closure, a module-level helper, a generator method, merged or split guards -
-is invisible to the rules; a construct or external callable without a model is a ``ModelError`` (exit 2).
-
-R-SUMSHAPE ``evaluate()`` (and ``doit()``) of every model sum denotes the same finite sum as the model itself.
-R-FREE     ``free_symbols`` is (free symbols of the summand and of the pools) minus the own index symbols, and a
-           fresh set on every access.
-R-BINDER   substituting an own index symbol leaves the sum unchanged; every other substitution equals the
-           binding-aware substitution into summand AND pools.
-R-DROP     ``cleanup()`` never changes the denotation: an index is retained, substituted by its single value, or
-           compensated by its pool size (K2: an index that does not occur in the summand is dropped).
-R-BINDSUBST own index symbols are substituted into the summand with ``subs`` (binding aware), never ``xreplace``.
+R-BINDER  a class that subtracts bound symbols in ``free_symbols`` guards substitution.
+R-SUMSHAPE ``evaluate`` is Add over itertools.product of all pools, substituting
+          zip(index symbols, combination) into the summand.
+R-FREE    the subtrahend of ``free_symbols`` is exactly the index symbols.
+R-DROP    ``cleanup`` keeps, substitutes or compensates every index.
 """
 
 from __future__ import annotations
 
 import ast
-import itertools
 
 from ..dataflow import RD
 from ..exprmodel import handwritten_expr_classes
-from ..loader import AnalysisError, ClassInfo, FuncInfo, Tree, unparse, walk_function
-from ..pyexec import ClassObj, Instance, MObj, ModelError, ModelRaise, PyExec, SymWorld
+from ..inline import CallInliner, Inliner
+from ..loader import ancestors, AnalysisError, ClassInfo, FuncInfo, Tree, unparse, walk_function
+from ..paths import PathWalker
 from ..report import Check
 
 PID = "C18"
 POOLSUM = "ampform.sympy::PoolSum"
-MODEL = "ampform.helicity::HelicityModel"
 # SymPy's own binders guard substitution (ExprWithLimits defines free_symbols and _eval_subs)
 EXTERNAL_BINDERS = {"sympy.Integral", "sympy.Sum", "sympy.Product"}
 
 
-# --------------------------------------------------------------------------- the model world
-class PoolSumWorld:
-    """Model sums: instances of the repository class ``PoolSum`` whose methods are interpreted, inside a SymPy
-    model world.  What SymPy's ``Basic`` provides (``args``, ``subs``, ``xreplace``, ``atoms``, ``has``, the
-    inherited ``free_symbols`` = union over the arguments) is modelled here; what the class defines is taken
-    from the class."""
-
-    def __init__(self, tree: Tree) -> None:
-        self.tree = tree
-        self.cls = tree.cls(POOLSUM)
-        self.ex = PyExec(tree)
-        self.w = SymWorld(self.ex)
-        self._instances: dict = {}
-        w = self.w
-        self.class_obj = ClassObj(self.cls, {"__call__": self.construct, "__super__": MObj("super() of class PoolSum", {"__new__": lambda a, k: self.make(a[1:])}, open=False)})
-        self.ex.class_refs[POOLSUM] = self.class_obj
-        new = lambda a, k: self.make(a[1:])  # noqa: E731
-        self.ex.externals.update(w.externals())
-        self.ex.externals.update({
-            POOLSUM: self.class_obj,
-            "sympy.sympify": lambda a, k: self.sympify(a[0]),
-            "sympy.Expr.__new__": new, "sympy.Basic.__new__": new, "sympy.core.expr.Expr.__new__": new, "sympy.core.basic.Basic.__new__": new,
-            "sympy.postorder_traversal": lambda a, k: self.postorder(a[0]),
-            "sympy.preorder_traversal": lambda a, k: list(reversed(self.postorder(a[0]))),
-        })
-
-    # ---- objects
-    def sympify(self, x):
-        if isinstance(x, (tuple, list)):
-            return tuple(self.sympify(c) for c in x)
-        if isinstance(x, (int, float)) and not isinstance(x, bool):
-            return self.w.value(repr(x))
-        return x
-
-    def construct(self, args, kwargs):
-        """``PoolSum(...)`` as interpreted code sees it: through the class's own ``__new__``."""
-        m = self.tree.lookup_method(self.cls, "__new__")
-        if m is None:
-            return self.make(args)
-        return self.ex.call_function(m, [self.class_obj, *args], kwargs)
-
-    def make(self, args) -> Instance:
-        args = tuple(self.sympify(a) for a in args)
-        key = self._key(args)
-        if key in self._instances:
-            return self._instances[key]
-        label = "PoolSum(" + ", ".join(self.text(a) for a in args) + ")"
-        inst = Instance(label, self.cls, kinds={POOLSUM, "PoolSum", *SymWorld.EXPR_KINDS})
-        inst._keep = args  # type: ignore[attr-defined]
-        inst.attrs.update({"args": args, "func": self.class_obj, "__class__": self.class_obj, "is_Symbol": False, "is_symbol": False, "is_Atom": False,
-                           "__rebuild__": lambda children: self.make(children), "__str__": lambda a, k: label,
-                           "__eq__": lambda a, k: a[0] is inst, "__hash__": lambda a, k: id(inst)})
-        inst.attrs.update(self.w.arithmetic(inst))
-        basic = Instance(f"super() of {label}", None, kinds=inst.kinds)
-        basic.dynamic["free_symbols"] = lambda: set().union(*[self.w.free(a) for a in args]) if args else set()
-        api = {
-            "subs": lambda a, k: self.w._logged("subs", inst, a, k),
-            "xreplace": lambda a, k: self.w._logged("xreplace", inst, a, k),
-            "_subs": lambda a, k: self.w.subs1(inst, a[0], a[1]),
-            "atoms": lambda a, k: self.w.atoms(inst, a),
-            "has": lambda a, k: any(x in self.w.subtree(inst) for x in a),
-            "_eval_subs": lambda a, k: None,
-            "doit": lambda a, k: inst,
-        }
-        basic.attrs.update(api)
-        inst.attrs["__super__"] = basic
-        defined = {n for c in self.tree.mro(self.cls) for n in c.methods}
-        for name, f in api.items():
-            if name not in defined:
-                inst.attrs[name] = f
-        if "free_symbols" not in defined:
-            inst.dynamic["free_symbols"] = basic.dynamic["free_symbols"]
-        else:
-            inst.attrs["__free__"] = lambda: self.ex.getattr(inst, "free_symbols")  # SymPy asks the object itself
-        if "_eval_subs" in defined:
-            inst.attrs["_eval_subs_hook"] = lambda old, new: self.ex.call_method(inst, "_eval_subs", [old, new])
-        self._instances[key] = inst
-        return inst
-
-    def _key(self, x):
-        if isinstance(x, (tuple, list)):
-            return tuple(self._key(c) for c in x)
-        return id(x)
-
-    def text(self, x) -> str:
-        if isinstance(x, (tuple, list)):
-            return "(" + ", ".join(self.text(c) for c in x) + ")"
-        if isinstance(x, MObj):
-            return x.attrs["__str__"]([], {}) if "__str__" in x.attrs else x.label
-        return repr(x)
-
-    def is_sum(self, x) -> bool:
-        return isinstance(x, Instance) and x.cls is self.cls
-
-    def postorder(self, e) -> list:
-        out = []
-        for c in self.w.children(e):
-            out += self.postorder(c)
-        if isinstance(e, MObj):
-            out.append(e)
-        return out
-
-    # ---- reference semantics (the specification; never interpreted code)
-    def indices(self, s: Instance):
-        """[(symbol, pool)] of a well-formed sum, else None."""
-        out = []
-        for entry in s.attrs["args"][1:]:
-            if not (isinstance(entry, tuple) and len(entry) == 2 and isinstance(entry[1], tuple)):
-                return None
-            out.append((entry[0], entry[1]))
-        return out
-
-    def ref_subs(self, x, sigma: dict):
-        """Binding-aware simultaneous substitution."""
-        if isinstance(x, MObj) and x in sigma:
-            return sigma[x]
-        if isinstance(x, (tuple, list)):
-            return tuple(self.ref_subs(c, sigma) for c in x)
-        if self.is_sum(x):
-            idx = self.indices(x)
-            if idx is None:
-                return x
-            own = {s for s, _ in idx}
-            inner = {k: v for k, v in sigma.items() if k not in own}
-            return self.make((self.ref_subs(x.attrs["args"][0], inner), *[(s, tuple(self.ref_subs(v, sigma) for v in pool)) for s, pool in idx]))
-        kids = self.w.children(x)
-        if not kids:
-            return x
-        return self.w.rebuild(x, tuple(self.ref_subs(c, sigma) for c in kids))
-
-    def ref_free(self, x) -> set:
-        if isinstance(x, (tuple, list)):
-            return set().union(*[self.ref_free(c) for c in x]) if x else set()
-        if self.is_sum(x):
-            idx = self.indices(x) or []
-            own = {s for s, _ in idx}
-            out = self.ref_free(x.attrs["args"][0]) - own
-            for _, pool in idx:
-                out |= self.ref_free(pool)
-            return out
-        if self.w.is_symbol(x):
-            return {x}
-        return set().union(*[self.ref_free(c) for c in self.w.children(x)]) if self.w.children(x) else set()
-
-    def normal(self, x):
-        """Canonical form of the value an expression denotes: every pool sum (at any depth) expanded into the
-        sum of its summand over the cartesian product of its pools, sums flattened and ordered."""
-        if isinstance(x, (tuple, list)):
-            return ("tuple", tuple(self.normal(c) for c in x))
-        if self.is_sum(x):
-            idx = self.indices(x)
-            if idx is None:
-                return ("malformed sum", self.text(x))
-            summand = x.attrs["args"][0]
-            symbols = [s for s, _ in idx]
-            return self._add([self.normal(self.ref_subs(summand, dict(zip(symbols, combo)))) for combo in itertools.product(*[p for _, p in idx])])
-        if not isinstance(x, MObj):
-            return ("python", repr(x))
-        kids = self.w.children(x)
-        if x.attrs.get("head") == "Add":
-            return self._add([self.normal(c) for c in kids])
-        if not kids:
-            return ("atom", x.label)
-        return (x.attrs.get("head", x.label), tuple(self.normal(c) for c in kids))
-
-    @staticmethod
-    def _add(terms: list):
-        flat = []
-        for t in terms:
-            if isinstance(t, tuple) and t and t[0] == "Add":
-                flat += list(t[1])
-            else:
-                flat.append(t)
-        if len(flat) == 1:
-            return flat[0]
-        return ("Add", tuple(sorted(flat, key=repr)))
-
-    def show(self, n, depth: int = 0) -> str:
-        if not isinstance(n, tuple):
-            return str(n)
-        if n[0] == "atom":
-            return n[1].replace("Symbol ", "").replace("value ", "")
-        if n[0] == "Add":
-            if not n[1]:
-                return "0"
-            return " + ".join(self.show(t, depth + 1) for t in n[1][:6]) + (f" + ... ({len(n[1])} terms)" if len(n[1]) > 6 else "")
-        if n[0] in {"tuple"}:
-            return "(" + ", ".join(self.show(t, depth + 1) for t in n[1]) + ")"
-        if len(n) == 2 and isinstance(n[1], tuple):
-            return f"{n[0]}({', '.join(self.show(t, depth + 1) for t in n[1])})"
-        return str(n)
+def _is_property(fn: FuncInfo) -> bool:
+    return any(unparse(d) in {"property", "cached_property", "functools.cached_property"} for d in fn.node.decorator_list)
 
 
-class Models:
-    """The model sums.  Symbols: i, j, k, l (used as indices), x, y (free), J (free, inside a pool); values a1 ...
-    (`zero` is falsy, like the number 0)."""
-
-    def __init__(self, world: PoolSumWorld) -> None:
-        self.world = world
-        w = world.w
-        self.i, self.j, self.k, self.l, self.x, self.y, self.J, self.z = (w.symbol(n) for n in ("i", "j", "k", "l", "x", "y", "J", "z"))  # noqa: E741
-        self.zero = w.value("0")
-        self.zero.truth = False
-        self.v = {n: w.value(n) for n in ("a1", "a2", "a3", "b1", "b2", "b3", "c1", "c2", "d1")}
-
-    def F(self, *children):  # noqa: N802
-        return self.world.w.node("F", *children)
-
-    def G(self, *children):  # noqa: N802
-        return self.world.w.node("G", *children)
-
-    def sum(self, summand, *indices) -> Instance:
-        """Built through the class's own constructor (so that what ``__new__`` does to the arguments is part of the model)."""
-        try:
-            return self.world.construct([summand, *indices], {})
-        except ModelRaise as exc:
-            return exc
+def subtracting_free_symbols(cls: ClassInfo) -> ast.BinOp | None:
+    fs = cls.methods.get("free_symbols")
+    if fs is None:
+        return None
+    for node in walk_function(fs.node):
+        if isinstance(node, ast.Return) and isinstance(node.value, ast.BinOp) and isinstance(node.value.op, ast.Sub):
+            return node.value
+    rd = RD(fs.node)
+    for ret, _ in rd.returns:
+        for d in rd.closure(rd.uses(ret.value)) if ret.value is not None else ():
+            if isinstance(d.value, ast.BinOp) and isinstance(d.value.op, ast.Sub):
+                return d.value
+            if isinstance(d.node, ast.AugAssign) and isinstance(d.node.op, ast.Sub):
+                return ast.BinOp(left=ast.Name(id=d.name, ctx=ast.Load()), op=ast.Sub(), right=d.node.value)
+    for node in walk_function(fs.node):
+        if isinstance(node, ast.Call) and isinstance(node.func, ast.Attribute) and node.func.attr in {"difference", "difference_update", "discard", "remove"}:
+            return ast.BinOp(left=node.func.value, op=ast.Sub(), right=node.args[0] if node.args else ast.Constant(None))
+    return None
 
 
-def _interpret(what: str, thunk):
-    """Run an interpretation; a Python-level exception raised by the interpreted code is a fact about the code
-    (returned as ModelRaise), a gap of the interpreter is an AnalysisError."""
-    try:
-        return thunk()
-    except ModelRaise as exc:
-        return exc
-    except ModelError as exc:
-        raise AnalysisError(f"{what}: cannot interpret - {exc}") from exc
-    except RecursionError:
-        raise AnalysisError(f"{what}: cannot interpret - recursion too deep") from None
-    except AnalysisError:
-        raise
-    except Exception as exc:  # noqa: BLE001 - a gap of the interpreter must never look like a verdict
-        raise AnalysisError(f"{what}: cannot interpret - the model interpreter failed: {type(exc).__name__}: {exc}") from exc
+def subs_guard(tree: Tree, cls: ClassInfo) -> tuple[bool, str]:
+    """Does the class guard substitution of its bound symbols?"""
+    for c in tree.mro(cls):
+        for name in ("_eval_subs", "_subs", "subs"):
+            m = c.methods.get(name)
+            if m is None:
+                continue
+            params = m.params
+            if len(params) < 2:
+                return False, f"{name} has no `old` parameter"
+            old = params[1]
+            # an `if` whose test mentions `old` and whose body returns self
+            for node in walk_function(m.node):
+                if isinstance(node, ast.If) and any(isinstance(n, ast.Name) and n.id == old for n in ast.walk(node.test)):
+                    mentions_bound = any(
+                        isinstance(n, ast.Attribute) and n.attr in {"indices", "limits", "variables", "bound_symbols"} for n in ast.walk(node.test)
+                    ) or _test_uses_bound_local(m, node.test)
+                    returns_self = any(
+                        isinstance(s, ast.Return) and isinstance(s.value, ast.Name) and s.value.id == params[0] for s in ast.walk(node) if s in _direct_stmts(node.body)
+                    )
+                    if mentions_bound and returns_self:
+                        cmps = [n_ for n_ in ast.walk(node.test) if isinstance(n_, ast.Compare) and any(isinstance(x, ast.Name) and x.id == old for x in ast.walk(n_))]
+                        if any(not all(isinstance(o, (ast.Eq, ast.In, ast.Is)) for o in n_.ops) for n_ in cmps) or (isinstance(node.test, ast.UnaryOp) and isinstance(node.test.op, ast.Not)):
+                            return False, f"{c.name}.{name}: `if {unparse(node.test)[:60]}: return self` does not test that `{old}` IS one of the bound symbols"
+                        wider = _guard_wider_than_own(tree, c, m, node.test)
+                        if wider:
+                            return False, f"{c.name}.{name}: `if {unparse(node.test)[:60]}: return self` also refuses symbols that are NOT bound by this sum ({wider}): their free occurrences in the summand are never substituted"
+                        return True, f"{c.name}.{name}: `if {unparse(node.test)[:60]}: return self`"
+            return False, f"{c.name}.{name} never returns self for a bound symbol"
+    return False, "no _eval_subs/_subs/subs override: Basic.subs rewrites the bound index symbols"
 
 
-def _run_method(world: PoolSumWorld, inst: Instance, name: str, *args, **kwargs):
-    return _interpret(f"PoolSum.{name}", lambda: world.ex.call_method(inst, name, list(args), kwargs))
+def _guard_wider_than_own(tree: Tree, cls: ClassInfo, m: FuncInfo, test: ast.AST) -> str | None:
+    """The substitution guard must refuse exactly the symbols this instance binds (what
+    free_symbols subtracts).  A guard that consults a property / helper which also collects the
+    indices of sums nested in the summand is wider: `k` bound by an inner sum is then treated as
+    bound in the whole outer summand, where it may occur free."""
+    for n in ast.walk(test):
+        if isinstance(n, ast.Attribute) and isinstance(n.value, ast.Name) and n.value.id == m.params[0] and n.attr not in {"indices", "limits", "variables"}:
+            prop = None
+            for c in tree.mro(cls):
+                if n.attr in c.methods:
+                    prop = c.methods[n.attr]
+                    break
+            if prop is None:
+                continue
+            other = sorted({a.attr for a in walk_function(prop.node) if isinstance(a, ast.Attribute) and isinstance(a.value, ast.Name) and a.value.id == prop.params[0]
+                            and a.attr not in {"indices", "limits", "variables"}})
+            if other:
+                return f"`{n.attr}` also reads self.{', self.'.join(other)}"
+    return None
 
 
-# --------------------------------------------------------------------------- R-BINDER (classes)
-def _defines(tree: Tree, cls: ClassInfo, name: str) -> bool:
-    return any(name in c.methods for c in tree.mro(cls))
+def _direct_stmts(body):
+    return list(body)
+
+
+def _test_uses_bound_local(m: FuncInfo, test: ast.AST) -> bool:
+    rd = RD(m.node)
+    for d in rd.closure(rd.uses(test)):
+        if d.value is not None and any(isinstance(n, ast.Attribute) and n.attr in {"indices", "limits", "variables"} for n in ast.walk(d.value)):
+            return True
+    return False
 
 
 def check_binder(ctx: Check, tree: Tree) -> None:
-    """Every expression class that takes part in binding: a subclass of one of SymPy's binders must not override
-    ``free_symbols`` alone; PoolSum (its own binder) is decided on models (check_subs_returns / check_free_symbols);
-    any other hand-written class that defines ``free_symbols`` cannot be decided."""
     n = 0
     for q, cls in sorted(handwritten_expr_classes(tree).items()):
+        sub = subtracting_free_symbols(cls)
         ext = set(tree.external_bases(cls))
-        own = {m for m in ("free_symbols", "_eval_subs") if _defines(tree, cls, m)}
-        if q == POOLSUM:
-            n += 1
+        if sub is None:
+            if ext & EXTERNAL_BINDERS:
+                n += 1
+                own = {"free_symbols", "_eval_subs"} & set(cls.methods)
+                ctx.verdict(
+                    own != {"free_symbols"},
+                    "R-BINDER",
+                    f"{q}::inherited-binder",
+                    tree.loc(cls.node),
+                    f"{cls.name} inherits its binding discipline from {sorted(ext & EXTERNAL_BINDERS)} (overrides: {sorted(own) or 'none'})",
+                    "overrides free_symbols but not _eval_subs" if own == {"free_symbols"} else None,
+                )
             continue
-        if ext & EXTERNAL_BINDERS:
-            n += 1
-            ctx.verdict(
-                own != {"free_symbols"},
-                "R-BINDER",
-                f"{q}::inherited-binder",
-                tree.loc(cls.node),
-                f"{cls.name} inherits its binding discipline from {sorted(ext & EXTERNAL_BINDERS)} (overrides: {sorted(own) or 'none'})",
-                "overrides free_symbols but not _eval_subs" if own == {"free_symbols"} else None,
-            )
-            continue
-        if "free_symbols" in own:
-            raise AnalysisError(f"{q} defines free_symbols: a new binder class - no model for it, its substitution guard cannot be decided")
+        n += 1
+        ok, why = subs_guard(tree, cls)
+        ctx.verdict(
+            ok,
+            "R-BINDER",
+            f"{q}::binder-without-subs-guard",
+            tree.loc(cls.methods["free_symbols"].node),
+            f"{cls.name}.free_symbols removes `{unparse(sub.right)[:50]}` (bound symbols) - substitution must leave them alone: {why}",
+            None if ok else "PoolSum(f(i,j),(i,(1,2)),...).subs(i,5) rewrites the bound index; evaluate() itself substitutes with .subs, so a nested sum with a shadowed index is corrupted",
+        )
     if n < 2:
         raise AnalysisError(f"only {n} binder classes found (PoolSum, UnevaluatableIntegral, _SymbolicSum confirmed)")
 
 
-# --------------------------------------------------------------------------- R-FREE
 def check_free_symbols(ctx: Check, tree: Tree) -> None:
-    world = PoolSumWorld(tree)
-    cls = world.cls
-    fs = tree.lookup_method(cls, "free_symbols")
-    if fs is None:
-        raise AnalysisError("vanished anchor: PoolSum.free_symbols (without it Basic.free_symbols reports the bound index symbols as free)")
-    m = Models(world)
-    inner = m.sum(m.F(m.k, m.y), (m.k, (m.v["c1"], m.v["c2"])))
-    cases = [
-        ("several indices, one single-valued, a symbol inside a pool, a nested sum",
-         m.sum(m.G(m.i, m.j, m.l, m.x, inner), (m.i, (m.v["a1"], m.v["a2"])), (m.j, (m.J, m.v["b1"])), (m.l, (m.v["d1"],)))),
-        ("no index", m.sum(m.F(m.x, m.y))),
-        ("index that does not occur in the summand", m.sum(m.F(m.x), (m.i, (m.v["a1"], m.v["a2"])))),
-    ]
+    cls = tree.cls(POOLSUM)
+    sub = subtracting_free_symbols(cls)
+    fs = cls.methods.get("free_symbols")
+    if fs is None or sub is None:
+        raise AnalysisError("vanished anchor: PoolSum.free_symbols no longer subtracts the indices")
     problems = []
-    for label, inst in cases:
-        if isinstance(inst, ModelRaise):
-            raise AnalysisError(f"PoolSum(...) raises {inst} for the model `{label}`")
-        want = world.ref_free(inst)
-        got = _interpret("PoolSum.free_symbols", lambda inst=inst: world.ex.getattr(inst, "free_symbols"))
-        if isinstance(got, ModelRaise):
-            problems.append(f"{label}: raises {got}")
-            continue
-        if not isinstance(got, (set, frozenset)):
-            problems.append(f"{label}: returns a {type(got).__name__}, not a set")
-            continue
-        if set(got) != want:
-            extra, missing = set(got) - want, want - set(got)
-            problems.append(f"{label}: {world.text(inst)}.free_symbols" + (f" contains {sorted(world.text(s) for s in extra)}" if extra else "")
-                            + (f" lacks {sorted(world.text(s) for s in missing)}" if missing else ""))
+    # read through local temporaries: `bound = {...}; symbols = super().free_symbols; return symbols - bound`
+    rd = RD(fs.node)
+    inl = Inliner(fs.node, rd)
+    left = inl.expr(sub.left)
+    if isinstance(left, ast.Name):  # `symbols -= {...}`: the minuend is what `symbols` held before
+        for d in [d for d in rd.defs if d.kind == "aug" and d.name == left.id]:
+            before = rd.reaching(d.node.target)
+            if len(before) == 1 and next(iter(before)).kind == "assign" and next(iter(before)).value is not None:
+                left = inl.expr(next(iter(before)).value)
+    right = inl.expr(sub.right)
+    while isinstance(right, ast.Call) and isinstance(right.func, ast.Name) and right.func.id in {"set", "frozenset"} and len(right.args) == 1 and not right.keywords:
+        right = right.args[0]
+    if "free_symbols" not in unparse(left):
+        problems.append(f"minuend `{unparse(left)}` is not the summand's/super's free_symbols")
+    if index_role(right) == "symbols":
+        pass  # the index symbols, in any of the spellings index_role understands
+    elif isinstance(right, ast.SetComp) and len(right.generators) == 1:
+        gen = right.generators[0]
+        if gen.ifs:
+            problems.append("subtrahend is filtered")
+        if "indices" not in unparse(gen.iter):
+            problems.append(f"subtrahend iterates `{unparse(gen.iter)}`, not the indices")
+        if isinstance(gen.target, ast.Tuple) and isinstance(right.elt, ast.Name):
+            names = [unparse(e) for e in gen.target.elts]
+            if names.index(right.elt.id) != 0 if right.elt.id in names else True:
+                problems.append(f"subtrahend takes `{right.elt.id}`, not the index symbol (first tuple element)")
+        else:
+            problems.append("subtrahend shape not recognised")
+    else:
+        txt = unparse(right)
+        if "indices" not in txt:
+            problems.append(f"subtrahend `{txt}` does not derive from the indices")
     ctx.verdict(not problems, "R-FREE", f"{POOLSUM}.free_symbols::subtrahend", tree.loc(fs.node),
-                f"PoolSum.free_symbols = (free symbols of the summand and the pools) minus the own index symbols, on {len(cases)} model sums", problems or None)
+                f"PoolSum.free_symbols = {unparse(sub)[:80]}", problems or None)
 
 
-def check_free_symbols_fresh(ctx: Check, tree: Tree, world: PoolSumWorld | None = None) -> None:
-    """A caller may modify the set it gets (``symbols = expr.free_symbols; symbols |= ...`` is the normal SymPy idiom,
-    used by HelicityModel.__collect_symbols): the next access must not see that."""
-    world = world or PoolSumWorld(tree)
-    fs = tree.lookup_method(world.cls, "free_symbols")
-    if fs is None:
-        raise AnalysisError("vanished anchor: PoolSum.free_symbols")
-    m = Models(world)
-    inst = m.sum(m.F(m.i, m.x, m.y), (m.i, (m.v["a1"], m.v["a2"])))
-    first = _interpret("PoolSum.free_symbols", lambda: world.ex.getattr(inst, "free_symbols"))
-    problem = None
-    if isinstance(first, ModelRaise) or not isinstance(first, (set, frozenset)):
-        raise AnalysisError(f"PoolSum.free_symbols of a model sum gives {first!r}")
-    if isinstance(first, set):
-        first.discard(m.x)
-        first.add(m.z)
-    second = _interpret("PoolSum.free_symbols", lambda: world.ex.getattr(inst, "free_symbols"))
-    if second is first:
-        problem = "the same set object is handed out on every access"
-    elif isinstance(second, (set, frozenset)) and set(second) != world.ref_free(inst):
-        problem = "a modification of the returned set by the caller is visible to the next access"
-    decs = [unparse(d) for d in fs.node.decorator_list]
-    ctx.verdict(problem is None, "R-FREE", f"{POOLSUM}.free_symbols::recomputed", tree.loc(fs.node),
-                "PoolSum.free_symbols: a fresh set on every access (a cached set is shared, mutable state of an immutable expression)",
-                None if problem is None else f"{problem} (decorators {decs}): callers routinely modify the set they get (`symbols = expr.free_symbols; symbols |= ...`)")
+PAIRS = {"self.indices", "self.args[1:]"}
 
 
-# --------------------------------------------------------------------------- R-SUMSHAPE
-def _evaluate_models(m: Models) -> list[tuple[str, Instance]]:
-    v = m.v
-    inner_shadow = m.sum(m.F(m.i, m.y), (m.i, (v["b1"], v["b2"])))
-    inner_free_i = m.sum(m.F(m.i, m.j, m.y), (m.j, (v["b1"], v["b2"])))
-    inner_same_j = m.sum(m.F(m.j, m.y), (m.j, (v["b1"], v["b2"])))
-    return [
-        ("no index", m.sum(m.F(m.x))),
-        ("one index, three values", m.sum(m.F(m.i, m.x), (m.i, (v["a1"], v["a2"], v["a3"])))),
-        ("three indices with 2, 3 and 1 values", m.sum(m.F(m.i, m.j, m.k, m.x), (m.i, (v["a1"], v["a2"])), (m.j, (v["b1"], v["b2"], v["b3"])), (m.k, (v["c1"],)))),
-        ("a pool with a repeated value", m.sum(m.F(m.i, m.x), (m.i, (v["a1"], v["a1"])))),
-        ("a pool that contains 0", m.sum(m.F(m.i, m.j), (m.i, (m.zero, v["a1"])), (m.j, (m.zero, v["b1"])))),
-        ("an index that does not occur in the summand", m.sum(m.F(m.x), (m.i, (v["a1"], v["a2"], v["a3"])))),
-        ("a nested sum inside the summand that binds the same symbol", m.sum(m.G(m.i, inner_shadow), (m.i, (v["a1"], v["a2"])))),
-        ("the summand is itself a sum in which the index occurs free", m.sum(inner_free_i, (m.i, (v["a1"], v["a2"])))),
-        ("the summand is itself a sum over the same symbol", m.sum(inner_same_j, (m.j, (v["a1"], v["a2"], v["a3"])))),
-    ]
+def _unwrap(e: ast.AST) -> ast.AST:
+    """list(x) / tuple(x) / iter(x): the same elements in the same order."""
+    while isinstance(e, ast.Call) and isinstance(e.func, ast.Name) and e.func.id in {"list", "tuple", "iter"} and len(e.args) == 1 and not e.keywords:
+        e = e.args[0]
+    return e
 
 
-def _own_index_xreplaces(world: PoolSumWorld, inst: Instance, start: int) -> list[tuple[FuncInfo | None, str]]:
-    """(function, method) for every substitution call made since ``start`` whose keys contain an index symbol of ``inst``."""
-    own = {s for s, _ in (world.indices(inst) or [])}
-    out = []
-    for method, _recv, arg, where in world.w.log[start:]:
-        keys = set(arg) if isinstance(arg, dict) else {k for k, _ in arg}
-        if keys & own:
-            out.append((where, method))
+def _element_role(e: ast.AST, target: ast.AST) -> str | None:
+    """Role of an expression built from one (symbol, pool) pair bound to ``target``."""
+    e = _unwrap(e)
+    if isinstance(target, ast.Tuple) and len(target.elts) == 2 and all(isinstance(t, ast.Name) for t in target.elts):
+        first, second = (t.id for t in target.elts)
+        if isinstance(e, ast.Name):
+            return "symbols" if e.id == first else "pools" if e.id == second else None
+        if isinstance(e, ast.Tuple) and len(e.elts) == 2 and _element_role(e.elts[0], target) == "symbols" and _element_role(e.elts[1], target) == "pools":
+            return "pairs"
+        return None
+    if isinstance(target, ast.Name):
+        if isinstance(e, ast.Name) and e.id == target.id:
+            return "pairs"
+        if isinstance(e, ast.Subscript) and isinstance(e.value, ast.Name) and e.value.id == target.id and isinstance(e.slice, ast.Constant) and e.slice.value in (0, 1):
+            return "symbols" if e.slice.value == 0 else "pools"
+    return None
+
+
+def _mapping_roles(e: ast.AST) -> tuple[str, str, bool] | None:
+    """(role of the keys, role of the values, complete) of a dictionary built from the index pairs."""
+    if isinstance(e, ast.Call) and unparse(e.func).split(".")[-1] in {"dict", "OrderedDict"} and len(e.args) == 1 and not e.keywords:
+        r = seq_role(e.args[0])
+        if r is not None and r[0] == "pairs":
+            return "symbols", "pools", r[1]
+        return None
+    if isinstance(e, ast.DictComp) and len(e.generators) == 1:
+        gen = e.generators[0]
+        src = seq_role(gen.iter)
+        if src is None or src[0] != "pairs":
+            return None
+        k, v = _element_role(e.key, gen.target), _element_role(e.value, gen.target)
+        if k is None or v is None:
+            return None
+        return k, v, src[1] and not gen.ifs
+    return None
+
+
+def seq_role(e: ast.AST) -> tuple[str, bool] | None:
+    """What an (inlined) expression enumerates, in the order of the indices: ("symbols" | "pools" | "pairs",
+    complete?) - None if it is not recognisably derived from ``self.indices``.  complete=False: a slice or a
+    filtered comprehension (some indices are missing)."""
+    e = _unwrap(e)
+    if unparse(e) in PAIRS:
+        return "pairs", True
+    if isinstance(e, ast.Call) and isinstance(e.func, ast.Attribute) and e.func.attr in {"keys", "values", "items"} and not e.args and not e.keywords:
+        m = _mapping_roles(_unwrap(e.func.value)) if not isinstance(e.func.value, ast.Name) else None
+        if m is None:
+            return None
+        k, v, complete = m
+        if e.func.attr == "items":
+            return ("pairs", complete) if (k, v) == ("symbols", "pools") else None
+        return (k if e.func.attr == "keys" else v), complete
+    m = _mapping_roles(e)
+    if m is not None:  # iterating a dictionary gives its keys
+        return m[0], m[2]
+    if isinstance(e, (ast.ListComp, ast.GeneratorExp, ast.SetComp)) and len(e.generators) == 1:
+        gen = e.generators[0]
+        src = seq_role(gen.iter)
+        if src is None or src[0] != "pairs":
+            return None
+        role = _element_role(e.elt, gen.target)
+        return None if role is None else (role, src[1] and not gen.ifs)
+    if isinstance(e, ast.Subscript):
+        if isinstance(e.slice, ast.Slice):
+            r = seq_role(e.value)
+            return None if r is None else (r[0], False)
+        # symbols, pools = zip(*self.indices)
+        z = e.value
+        if (isinstance(z, ast.Call) and isinstance(z.func, ast.Name) and z.func.id == "zip" and len(z.args) == 1 and isinstance(z.args[0], ast.Starred)
+                and isinstance(e.slice, ast.Constant) and e.slice.value in (0, 1)):
+            r = seq_role(z.args[0].value)
+            if r is not None and r[0] == "pairs":
+                return ("symbols" if e.slice.value == 0 else "pools"), r[1]
+    return None
+
+
+def index_role(expr: ast.AST) -> str | None:
+    """Is this (inlined) expression the complete sequence of index symbols or of index pools?"""
+    r = seq_role(expr)
+    return r[0] if r is not None and r[1] and r[0] in {"symbols", "pools"} else None
+
+
+WRONG_COMBINATORS = {"zip", "itertools.zip_longest", "itertools.combinations", "itertools.permutations", "itertools.combinations_with_replacement", "itertools.chain", "map", "enumerate"}
+
+
+def check_evaluate(ctx: Check, tree: Tree) -> None:
+    """The value of evaluate() in closed form (locals inlined, accumulator loops already comprehensions):
+    Add(*[summand.subs(zip(index symbols, combi)) for combi in itertools.product(*all pools)]).  ``problems`` are
+    recognised deviations (violation); ``unknown`` are shapes the rule cannot interpret (ANALYSIS-ERROR unless a
+    definite problem was found as well)."""
+    cls = tree.cls(POOLSUM)
+    ev = cls.methods.get("evaluate")
+    if ev is None:
+        raise AnalysisError("vanished anchor: PoolSum.evaluate")
+    rd = RD(ev.node)
+    inl = CallInliner(tree, ev, rd)  # locals and extracted helpers read through
+    key = f"{POOLSUM}.evaluate::shape"
+    problems: list[str] = []
+    unknown: list[str] = []
+    ret = [n for n in walk_function(ev.node, nested=False) if isinstance(n, ast.Return)]
+    if len(ret) != 1:
+        raise AnalysisError("PoolSum.evaluate: expected exactly one return")
+    val = inl.expr(ret[0].value)
+
+    def resolved(call: ast.AST) -> str | None:
+        if isinstance(call, ast.Call) and getattr(call, "_module", None) is not None:
+            return tree.callee(call, ev)
+        return None
+
+    comp = None
+    if isinstance(val, ast.Call):
+        q = resolved(val) or unparse(val.func)
+        if q == "sympy.Add" or (q == "sum" and len(val.args) == 1 and not val.keywords):
+            pass
+        elif q.startswith("sympy.") or q in {"max", "min", "math.prod"}:
+            problems.append(f"result is `{unparse(val.func)}`, not sp.Add(...)")
+        else:
+            unknown.append(f"result is built by `{unparse(val.func)}`")
+        for a in val.args:
+            inner = a.value if isinstance(a, ast.Starred) else a
+            if isinstance(inner, (ast.ListComp, ast.GeneratorExp)):
+                comp = inner
+    else:
+        unknown.append(f"result `{unparse(val)[:60]}` is not a call")
+    if comp is None:
+        unknown.append("no comprehension over the index combinations")
+    else:
+        if any(g.ifs for g in comp.generators):
+            problems.append("combinations are filtered")
+        if len(comp.generators) != 1:
+            unknown.append("combinations are nested differently")
+        gen = comp.generators[0]
+        it = gen.iter
+        callee = resolved(it)
+        if callee != "itertools.product":
+            if callee in WRONG_COMBINATORS or (isinstance(it, ast.Call) and unparse(it.func) in WRONG_COMBINATORS):
+                problems.append(f"combinations come from `{callee or unparse(it)[:40]}`, not itertools.product")
+            else:
+                unknown.append(f"combinations come from `{unparse(it)[:60]}`")
+        elif not (isinstance(it, ast.Call) and len(it.args) == 1 and isinstance(it.args[0], ast.Starred) and not it.keywords):
+            unknown.append("itertools.product is not applied to one starred sequence of pools")
+        else:
+            pools = it.args[0].value
+            r = seq_role(pools)
+            if r is None:
+                stored = [n for n in ast.walk(pools) if isinstance(n, ast.Name) and any(d.kind in {"store", "aug"} for d in rd.reaching(getattr(n, "_origin", n)))]
+                (problems if stored else unknown).append(f"`{unparse(pools)[:70]}` is not the sequence of all index pools" + (f" (`{stored[0].id}` is modified after it was built)" if stored else ""))
+            elif r != ("pools", True):
+                problems.append(f"`{unparse(pools)[:70]}` is not the sequence of all index pools ({r[0]}{'' if r[1] else ', incomplete'})")
+        # element: self.expression.subs(zip(<index symbols>, combi)) / xreplace(dict(zip(...)))
+        elt = comp.elt
+        combi = unparse(gen.target)
+        if isinstance(elt, ast.Call) and isinstance(elt.func, ast.Attribute) and elt.func.attr in {"subs", "xreplace"}:
+            base = elt.func.value
+            if unparse(base) not in {"self.expression", "self.args[0]"}:
+                # a local with several definitions: is every one of them the summand?
+                defs = rd.reaching(getattr(base, "_origin", base)) if isinstance(base, ast.Name) else set()
+                others = [unparse(d.value)[:40] for d in defs if d.value is not None and unparse(inl.expr(d.value)) not in {"self.expression", "self.args[0]"}]
+                if others or not isinstance(base, ast.Name):
+                    problems.append(f"substitution is applied to `{unparse(base)[:40]}`, not the summand" + (f" (it may hold `{others[0]}`)" if others else ""))
+                else:
+                    unknown.append(f"substitution is applied to `{unparse(base)[:40]}`")
+            arg = elt.args[0] if elt.args else None
+            while isinstance(arg, ast.Call) and isinstance(arg.func, ast.Name) and arg.func.id in {"list", "tuple", "dict"} and len(arg.args) == 1 and not arg.keywords:
+                arg = arg.args[0]
+            zips = [arg] if isinstance(arg, ast.Call) and isinstance(arg.func, ast.Name) and arg.func.id == "zip" else []
+            if len(zips) == 1 and len(zips[0].args) == 2:
+                a0, a1 = (unparse(x) for x in zips[0].args)
+                if a1 != combi:
+                    problems.append(f"zip pairs `{a0[:40]}` with `{a1[:40]}` instead of the combination `{combi}`")
+                r = seq_role(zips[0].args[0])
+                if r is None:
+                    unknown.append(f"zip keys `{a0[:60]}`")
+                elif r != ("symbols", True):
+                    problems.append(f"zip keys `{a0[:60]}` are not the index symbols ({r[0]}{'' if r[1] else ', incomplete'})")
+            else:
+                unknown.append(f"summand element `{unparse(elt)[:60]}` is not <summand>.subs(zip(<indices>, <combination>))")
+        else:
+            unknown.append(f"summand element `{unparse(elt)[:60]}` is not <summand>.subs(zip(<indices>, <combination>))")
+    if unknown and not problems:
+        raise AnalysisError("PoolSum.evaluate: cannot interpret - " + "; ".join(unknown))
+    ctx.verdict(not problems, "R-SUMSHAPE", key, tree.loc(ev.node),
+                "PoolSum.evaluate = Add(*[summand.subs(zip(index symbols, combi)) for combi in itertools.product(*all pools)])", (problems + [f"(not interpreted: {u})" for u in unknown]) or None)
+    # doit delegates to evaluate
+    doit = cls.methods.get("doit")
+    if doit is not None:
+        calls_eval = any(isinstance(n, ast.Call) and unparse(n.func) == "self.evaluate" for n in walk_function(doit.node))
+        ctx.verdict(calls_eval, "R-SUMSHAPE", f"{POOLSUM}.doit::delegates", tree.loc(doit.node), "PoolSum.doit unfolds through self.evaluate()")
+
+
+def check_new(ctx: Check, tree: Tree) -> bool:
+    """__new__ rejects empty pools (makes the `len(values) == 0` path of cleanup dead)."""
+    from ..canon import emptiness_fact
+
+    new = tree.cls(POOLSUM).methods.get("__new__")
+    if new is None:
+        return False
+    # ... in __new__ itself or in a helper of the same module that it calls (extracted validation):
+    # a branch that raises exactly when a container taken from the loop over the indices is empty
+    reach = [q for q in tree.reachable(new.qual) if q in tree.funcs and tree.funcs[q].module is new.module]
+    for q in reach:
+        g = tree.funcs[q]
+        rd = RD(g.node)
+
+        def from_loop(e: ast.AST, rd=rd, g=g) -> bool:
+            if not isinstance(e, ast.Name):
+                return False
+            deps = rd.closure(rd.reaching(e))
+            if any(d.kind == "for" for d in deps):
+                return True
+            # a validating helper receives the pool of ONE index as a parameter (the loop over the indices is at its call site)
+            return g.qual != new.qual and any(d.kind == "param" for d in deps)
+
+        for node in walk_function(g.node):
+            if not isinstance(node, ast.If):
+                continue
+            for outcome, branch in ((True, node.body), (False, node.orelse)):
+                if any(isinstance(s, ast.Raise) for s in branch) and emptiness_fact(node.test, outcome, from_loop) == "empty":
+                    return True
+    return False
+
+
+def _name_safe(text: str, idx: str, values: str) -> str:
+    import re
+
+    text = re.sub(rf"\b{re.escape(idx)}\b", "<index>", text)
+    return re.sub(rf"\b{re.escape(values)}\b", "<pool>", text)
+
+
+def _poolsum_call(tree: Tree, fn: FuncInfo, e: ast.AST) -> bool:
+    if not isinstance(e, ast.Call):
+        return False
+    q = tree.callee(e, fn) if getattr(e, "_module", None) is not None else None
+    return q == POOLSUM or "PoolSum" in unparse(e.func) or unparse(e.func) in {"type(self)", "self.__class__", "self.func"}
+
+
+def _stores_into(st: ast.AST) -> tuple[str, ast.AST] | None:
+    """(container, what is put in) for the statements that put something into a local container."""
+    if isinstance(st, ast.Assign) and len(st.targets) == 1 and isinstance(st.targets[0], ast.Subscript) and isinstance(st.targets[0].value, ast.Name):
+        return st.targets[0].value.id, ast.Tuple(elts=[st.targets[0].slice, st.value], ctx=ast.Load())
+    if isinstance(st, ast.Expr) and isinstance(st.value, ast.Call) and isinstance(st.value.func, ast.Attribute) and isinstance(st.value.func.value, ast.Name) \
+            and st.value.func.attr in {"append", "add", "insert", "update", "extend", "setdefault", "__setitem__"}:
+        return st.value.func.value.id, ast.Tuple(elts=list(st.value.args), ctx=ast.Load())
+    if isinstance(st, ast.AugAssign) and isinstance(st.target, ast.Name) and isinstance(st.op, (ast.Add, ast.BitOr)):
+        return st.target.id, st.value
+    if isinstance(st, ast.Assign) and len(st.targets) == 1 and isinstance(st.targets[0], ast.Name) and any(
+            isinstance(n, ast.Name) and n.id == st.targets[0].id for n in ast.walk(st.value)):
+        return st.targets[0].id, st.value  # acc = [*acc, x] / acc = acc + [x]
+    return None
+
+
+def _pool_sizes(test: ast.AST, outcome: bool, is_pool) -> set[int] | None:
+    """The abstract sizes of the pool (0, 1, 2 = two or more) for which the test can have this outcome; None
+    if the test does not compare the size of the pool with a constant.  `len(v) == 1`, `len(v) != 1`, `len(v) > 1`,
+    `1 < len(v)`, `not v`, `v == ()` ... all become statements about the same three cases."""
+    from ..canon import normal_test
+
+    test, outcome = normal_test(test, outcome)
+
+    def is_len(e):
+        return isinstance(e, ast.Call) and isinstance(e.func, ast.Name) and e.func.id == "len" and len(e.args) == 1 and not e.keywords and is_pool(e.args[0])
+
+    def empty_display(e):
+        return (isinstance(e, (ast.List, ast.Tuple, ast.Set)) and not e.elts) or (isinstance(e, ast.Dict) and not e.keys) or (
+            isinstance(e, ast.Call) and isinstance(e.func, ast.Name) and e.func.id in {"tuple", "list", "set", "frozenset"} and not e.args and not e.keywords)
+
+    if is_pool(test) or is_len(test):
+        return {1, 2} if outcome else {0}
+    if not (isinstance(test, ast.Compare) and len(test.ops) == 1):
+        return None
+    a, op, b = test.left, test.ops[0], test.comparators[0]
+    if isinstance(op, ast.Eq) and ((is_pool(a) and empty_display(b)) or (is_pool(b) and empty_display(a))):
+        return {0} if outcome else {1, 2}
+    mirror = {ast.Lt: ast.Gt, ast.Gt: ast.Lt, ast.LtE: ast.GtE, ast.GtE: ast.LtE, ast.Eq: ast.Eq}
+    if is_len(b) and isinstance(a, ast.Constant) and type(op) in mirror:
+        a, op, b = b, mirror[type(op)](), a
+    if not (is_len(a) and isinstance(b, ast.Constant) and isinstance(b.value, int) and not isinstance(b.value, bool)):
+        return None
+    k = b.value
+    holds = {ast.Eq: lambda n: n == k, ast.Lt: lambda n: n < k, ast.LtE: lambda n: n <= k, ast.Gt: lambda n: n > k, ast.GtE: lambda n: n >= k}.get(type(op))
+    if holds is None:
+        return None
+    out = set()
+    for size, members in ((0, [0]), (1, [1]), (2, range(2, max(k, 2) + 3))):
+        if any(holds(n) == outcome for n in members):
+            out.add(size)
     return out
 
 
-def check_evaluate(ctx: Check, tree: Tree) -> dict:
-    """evaluate() and doit() of every model sum denote the sum itself.  Returns the substitution sites seen."""
-    world = PoolSumWorld(tree)
-    ev = tree.lookup_method(world.cls, "evaluate")
-    if ev is None:
-        raise AnalysisError("vanished anchor: PoolSum.evaluate")
-    m = Models(world)
-    problems, doit_problems = [], []
-    sites: dict = {}
-    models = _evaluate_models(m)
-    for label, inst in models:
-        if isinstance(inst, ModelRaise):
-            raise AnalysisError(f"PoolSum(...) raises {inst} for the model `{label}`")
-        want = world.normal(inst)
-        for method, bucket in (("evaluate", problems), ("doit", doit_problems)):
-            if tree.lookup_method(world.cls, method) is None:
-                continue
-            start = len(world.w.log)
-            got = _run_method(world, inst, method)
-            for where, how in _own_index_xreplaces(world, inst, start):
-                sites.setdefault((where.qual if isinstance(where, FuncInfo) else f"{POOLSUM}.{method}", how), where)
-            if isinstance(got, ModelRaise):
-                bucket.append(f"{label}: {world.text(inst)}.{method}() raises {got}")
-            elif world.normal(got) != want:
-                bucket.append(f"{label}: {world.text(inst)}.{method}() = {world.show(world.normal(got))[:160]}, the sum denotes {world.show(want)[:160]}")
-    ctx.verdict(not problems, "R-SUMSHAPE", f"{POOLSUM}.evaluate::shape", tree.loc(ev.node),
-                f"PoolSum.evaluate() = the sum of the summand over the cartesian product of all pools, index symbols substituted binding-aware ({len(models)} model sums)",
-                problems[:4] or None)
-    doit = tree.lookup_method(world.cls, "doit")
-    if doit is not None:
-        ctx.verdict(not doit_problems, "R-SUMSHAPE", f"{POOLSUM}.doit::delegates", tree.loc(doit.node), "PoolSum.doit() unfolds to the same finite sum as evaluate()", doit_problems[:4] or None)
-    return sites
+def check_cleanup(ctx: Check, tree: Tree) -> None:
+    from ..canon import emptiness_fact, normal_test
+    from ..paths import atomic_tests
 
-
-# --------------------------------------------------------------------------- R-DROP
-K2_COND = "not (<index> in self.expression.free_symbols)"
-
-
-def _cleanup_models(m: Models) -> list[tuple[str, str, object]]:
-    """(key suffix, description, thunk building the model sum).  Every model isolates one kind of index; the kinds
-    that K2 concerns (an index that does not occur in the summand, with several values) have models of their own."""
-    v = m.v
-    keep = (m.j, (v["b1"], v["b2"]))  # an index that must survive: occurs in the summand, two values
-    inner_shadow = lambda: m.sum(m.F(m.i, m.y), (m.i, (v["b1"], v["b2"])))  # noqa: E731
-    return [
-        ("no-index", "no index at all", lambda: m.sum(m.F(m.x))),
-        ("occurs::single-value", "an index that occurs in the summand and has one value", lambda: m.sum(m.F(m.i, m.x), (m.i, (v["a1"],)))),
-        ("occurs::several-values", "an index that occurs in the summand and has two values", lambda: m.sum(m.F(m.i, m.x), (m.i, (v["a1"], v["a2"])))),
-        ("occurs::three-values", "an index that occurs in the summand and has three values", lambda: m.sum(m.F(m.i, m.x), (m.i, (v["a1"], v["a2"], v["a3"])))),
-        ("occurs::repeated-value", "an index that occurs in the summand and has the same value twice", lambda: m.sum(m.F(m.i, m.x), (m.i, (v["a1"], v["a1"])))),
-        ("absent::single-value", "an index that does not occur in the summand and has one value", lambda: m.sum(m.F(m.x), (m.i, (v["a1"],)))),
-        ("mixed::single-and-several", "a single-valued index between two indices with several values",
-         lambda: m.sum(m.F(m.i, m.j, m.k, m.x), (m.i, (v["a1"], v["a2"])), (m.k, (v["c1"],)), keep)),
-        ("mixed::all-single", "two single-valued indices", lambda: m.sum(m.F(m.i, m.k, m.x), (m.i, (v["a1"],)), (m.k, (v["c1"],)))),
-        ("mixed::several-last", "a single-valued index followed by one with three values", lambda: m.sum(m.F(m.i, m.k), (m.k, (v["c1"],)), (m.i, (v["a1"], v["a2"], v["a3"])))),
-        ("nested::shadowed-single", "a single-valued index whose symbol is bound again by a nested sum", lambda: m.sum(m.G(m.i, inner_shadow()), (m.i, (v["a1"],)))),
-        ("absent::several-values", "an index that does not occur in the summand and has several values", lambda: m.sum(m.F(m.x), (m.i, (v["a1"], v["a2"], v["a3"])))),
-        ("absent::several-values-next-to-others", "an index that does not occur in the summand, next to one that does",
-         lambda: m.sum(m.F(m.j, m.x), (m.i, (v["a1"], v["a2"])), keep)),
-        ("empty::occurs", "an index that occurs in the summand and has no value", lambda: m.sum(m.F(m.i, m.x), (m.i, ()))),
-        ("empty::absent", "an index that does not occur in the summand and has no value", lambda: m.sum(m.F(m.x), (m.i, ()), keep)),
-    ]
-
-
-def check_cleanup(ctx: Check, tree: Tree) -> dict:
-    world = PoolSumWorld(tree)
-    fn = tree.lookup_method(world.cls, "cleanup")
+    cls = tree.cls(POOLSUM)
+    fn = cls.methods.get("cleanup")
     if fn is None:
         raise AnalysisError("vanished anchor: PoolSum.cleanup")
-    m = Models(world)
-    where = tree.loc(fn.node)
-    sites: dict = {}
-    n_decided = 0
-    for suffix, description, build in _cleanup_models(m):
-        inst = _interpret("PoolSum.__new__", build)
-        if isinstance(inst, ModelRaise):
-            if suffix.startswith("empty::") and inst.kind == "ValueError":
-                ctx.ok("R-DROP", where, f"PoolSum.cleanup, {description}: dead case - PoolSum.__new__ rejects empty pools")
+    rd = RD(fn.node)
+    inl = CallInliner(tree, fn, rd)
+    loops = [n for n in walk_function(fn.node) if isinstance(n, ast.For) and "indices" in unparse(inl.expr(n.iter))]
+    if len(loops) != 1:
+        raise AnalysisError("PoolSum.cleanup: expected one loop over self.indices")
+    loop = loops[0]
+    if not (isinstance(loop.target, ast.Tuple) and len(loop.target.elts) == 2):
+        raise AnalysisError("PoolSum.cleanup: loop target is not (idx, values)")
+    idx, values = (unparse(e) for e in loop.target.elts)
+    empty_rejected = check_new(ctx, tree)
+    # roles of the local containers: what goes into the rebuilt PoolSum(...) is retained, what is substituted into the summand is substituted
+    returns = [r for r in walk_function(fn.node, nested=False) if isinstance(r, ast.Return) and r.value is not None]
+    retained_names: set[str] = set()
+    subst_names: set[str] = set()
+    for c in [c for c in walk_function(fn.node, nested=False) if isinstance(c, ast.Call) and _poolsum_call(tree, fn, c)]:
+        for a in inl.expr(c).args[1:]:
+            retained_names |= {n.id for n in ast.walk(a) if isinstance(n, ast.Name)}
+    for node in walk_function(fn.node, nested=False):
+        if isinstance(node, ast.Call) and isinstance(node.func, ast.Attribute) and node.func.attr in {"subs", "xreplace", "replace"} and node.args:
+            if unparse(inl.expr(node.func.value)) in {"self.expression", "self.args[0]"}:
+                subst_names |= {n.id for n in ast.walk(inl.expr(node.args[0])) if isinstance(n, ast.Name)}
+    containers = {c for st in walk_function(loop, nested=False) for c in [(_stores_into(st) or (None,))[0]] if c}
+    retained_names &= containers
+    subst_names &= containers
+    if not retained_names:
+        raise AnalysisError("PoolSum.cleanup: no container of retained indices flows into the rebuilt PoolSum(...)")
+    walker = PathWalker(tree)
+
+    def is_pool(e: ast.AST) -> bool:
+        return isinstance(e, ast.Name) and e.id == values
+
+    domain = {1, 2} if empty_rejected else {0, 1, 2}
+    render = {frozenset({0}): "len(<pool>) == 0", frozenset({1}): "len(<pool>) == 1", frozenset({2}): "len(<pool>) > 1", frozenset({0, 1}): "len(<pool>) <= 1",
+              frozenset({1, 2}): "len(<pool>) >= 1", frozenset({0, 2}): "len(<pool>) != 1"}
+    # paths through one loop iteration only: wrap the body
+    seen: dict[str, tuple] = {}
+    for events0, status, _ in walker._block(loop.body, fn, 0):
+        for events in atomic_tests(events0):
+            tests = []  # conditions that are not about the size of the pool, in positive normal form
+            raw = []
+            sizes = set(domain)  # abstract pool sizes (0, 1, 2 = several) this path is taken for
+            for e in events:
+                if e[0] == "test":
+                    inlined = inl.expr(e[1])
+                    t_, o_ = normal_test(inlined, e[2])
+                    raw.append((_name_safe(unparse(t_), idx, values), o_))
+                    possible = _pool_sizes(inlined, e[2], is_pool)
+                    if possible is None:
+                        tests.append(raw[-1])
+                    else:
+                        sizes &= possible
+            if len({t for t, _ in tests}) < len(set(tests)):
+                continue  # contradictory alternative (a test with both outcomes): not a path
+            stmts = [e[1] for e in events if e[0] == "stmt"]
+            stores = [s_ for s_ in map(_stores_into, stmts) if s_ is not None and idx in {n.id for n in ast.walk(s_[1]) if isinstance(n, ast.Name)}]
+            retained = any(c in retained_names for c, _ in stores)
+            substituted = any(c in subst_names for c, _ in stores)
+            # compensation: a product with the pool size
+            compensated = False
+            for s_ in stmts:
+                if isinstance(s_, (ast.Assign, ast.AugAssign)) and s_.value is not None:
+                    val = inl.expr(s_.value)
+                    mult = (isinstance(s_, ast.AugAssign) and isinstance(s_.op, ast.Mult)) or any(
+                        isinstance(n, ast.BinOp) and isinstance(n.op, ast.Mult) for n in ast.walk(val)) or any(
+                        isinstance(n, ast.Call) and unparse(n.func).split(".")[-1] == "Mul" for n in ast.walk(val))
+                    if mult and f"len({values})" in unparse(val):
+                        compensated = True
+            if not sizes:
+                cond = " and ".join(f"{'' if o else 'not '}({t})" for t, o in raw) or "always"
+                seen[cond] = ("dead", sizes)
                 continue
-            raise AnalysisError(f"PoolSum(...) raises {inst} for the model `{description}`")
-        want = world.normal(inst)
-        start = len(world.w.log)
-        got = _run_method(world, inst, "cleanup")
-        for fn_, how in _own_index_xreplaces(world, inst, start):
-            sites.setdefault((fn_.qual if isinstance(fn_, FuncInfo) else fn.qual, how), fn_)
-        n_decided += 1
-        what = f"PoolSum.cleanup, {description}: value unchanged"
-        k2 = suffix.startswith("absent::several-values")
-        key = f"{POOLSUM}.cleanup::drop::{K2_COND}" if k2 else f"{POOLSUM}.cleanup::{suffix}"
-        if isinstance(got, ModelRaise):
-            ctx.violation("R-DROP", key, where, f"PoolSum.cleanup, {description}: raises {got}")
-            continue
-        if world.normal(got) == want:
+            shown = list(tests)
+            if sizes != domain:
+                shown.append((render[frozenset(sizes)], True))
+            cond = " and ".join(f"{'' if o else 'not '}({t})" for t, o in shown) or "always"
+            fate = "retained" if retained else "substituted" if substituted else "compensated" if compensated else "dropped"
+            seen[cond] = (fate, sizes)
+    if len(seen) < 3:
+        raise AnalysisError(f"PoolSum.cleanup: only {len(seen)} paths through the loop body")
+    for cond, (fate, sizes) in sorted(seen.items()):
+        where = tree.loc(loop)
+        what = f"PoolSum.cleanup, index with [{cond}]: {fate}"
+        if fate == "dead":
+            ctx.ok("R-DROP", where, f"PoolSum.cleanup, index with [{cond}]: dropped - dead path: PoolSum.__new__ rejects empty pools")
+        elif fate == "substituted":
+            # a substituted index must have exactly one value on this path
+            single = sizes <= {1}
+            ctx.verdict(single, "R-DROP", f"{POOLSUM}.cleanup::substitute::{cond}", where, what + " by its single value",
+                        None if single else "substituted although the pool may hold several values")
+        elif fate != "dropped":
             ctx.ok("R-DROP", where, what)
-            continue
-        # diagnosis (for the reader; the verdict is the inequality of the two denotations)
-        retained_wanted = [s for s, pool in (world.indices(inst) or []) if len(pool) != 1 and s in world.ref_free(inst.attrs["args"][0])]
-        notes = []
-        if not world.is_sum(got) and retained_wanted:
-            notes.append("returns the bare-summand although a summation index is left (bare-summand-iff-no-index)")
-        if k2:
-            what = f"PoolSum.cleanup, index with [{K2_COND}]: dropped without the factor len(<pool>)"
-            detail = "PoolSum(x, (i, [0,1,2])): .doit() = 3*x, .cleanup() = x - an index that does not occur in the summand still multiplies the sum by its pool size"
         else:
-            what = f"PoolSum.cleanup, {description}: the value changes" + (f" - {notes[0]}" if notes else "")
-            detail = f"{world.text(inst)}.cleanup() = {world.text(got)[:120]} denotes {world.show(world.normal(got))[:140]}, the sum denotes {world.show(want)[:140]}"
-        ctx.violation("R-DROP", key, where, what, detail)
-    if n_decided < 8:
-        raise AnalysisError(f"PoolSum.cleanup: only {n_decided} model sums could be built")
-    return sites
+            ctx.violation(
+                "R-DROP",
+                f"{POOLSUM}.cleanup::drop::{cond}",
+                where,
+                what + " without the factor len(<pool>)",
+                "PoolSum(x, (i, [0,1,2])): .doit() = 3*x, .cleanup() = x - an index that does not occur in the summand still multiplies the sum by its pool size",
+            )
+    # the rebuilt sum uses the substituted summand and all retained indices
+    loop_containers = {c for st in walk_function(loop, nested=False) for c in [(_stores_into(st) or (None,))[0]] if c and isinstance(st, ast.Assign) and isinstance(st.targets[0], ast.Subscript)}
+    function_paths = PathWalker(tree).paths(fn)
+
+    def path_value(p, ret: ast.Return) -> ast.AST:
+        """What this path returns: a returned local that was assigned in several branches is the value of
+        the assignment the path went through."""
+        v = ret.value
+        for _ in range(5):
+            if not (isinstance(v, ast.Name) and len(rd.reaching(v)) > 1):
+                break
+            last = None
+            for e in p.events:
+                if e[0] == "stmt" and isinstance(e[1], (ast.Assign, ast.AnnAssign)) and e[1].value is not None:
+                    tgts = e[1].targets if isinstance(e[1], ast.Assign) else [e[1].target]
+                    if any(isinstance(t, ast.Name) and t.id == v.id for t in tgts):
+                        last = e[1].value
+            if last is None:
+                break
+            v = last
+        return inl.expr(v)
+
+    def whole(e: ast.AST) -> bool:
+        while isinstance(e, ast.Call) and isinstance(e.func, ast.Name) and e.func.id in {"tuple", "list"} and len(e.args) == 1 and not e.keywords:
+            e = e.args[0]
+        return isinstance(e, ast.Name) and e.id in retained_names
+
+    for ret, _ in rd.returns:
+        if ret.value is None:
+            continue
+        deps = {d.name for d in rd.closure(rd.uses(ret.value))}
+        ok = bool((loop_containers | subst_names) & deps)
+        ctx.verdict(ok, "R-DROP", f"{POOLSUM}.cleanup::return::{unparse(ret.value)[:40]}", tree.loc(ret),
+                    f"PoolSum.cleanup `{unparse(ret)[:60]}` applies the collected substitutions", None if ok else "single-valued indices are dropped without being substituted")
+        reaching = [p for p in function_paths if p.exit == "return" and p.exit_node is ret]
+        if not reaching:
+            raise AnalysisError(f"PoolSum.cleanup: no path reaches `{unparse(ret)[:50]}`")
+        bare_paths, sum_values, bad_paths = 0, [], []
+        for p in reaching:
+            value = path_value(p, ret)
+            if _poolsum_call(tree, fn, value):
+                sum_values.append(value)
+                continue
+            bare_paths += 1
+            # the bare summand may only be returned when no summation index is left: the path has established, after
+            # the loop, that the container(s) of retained indices are empty
+            after = p.events
+            for i, e in enumerate(p.events):
+                if (e[0] == "iter" and e[1] is loop) or (e[0] in {"stmt", "test"} and any(e[1] is n for n in ast.walk(loop))):
+                    after = p.events[i + 1:]
+            for alt in atomic_tests(after):
+                for r_ in sorted(retained_names):
+                    facts = {emptiness_fact(inl.expr(e[1]), e[2], lambda x, r_=r_: isinstance(x, ast.Name) and x.id == r_) for e in alt if e[0] == "test"}
+                    if "empty" not in facts or "nonempty" in facts:
+                        bad_paths.append(" and ".join(f"{'' if e[2] else 'not '}({unparse(e[1])[:40]})" for e in alt if e[0] == "test") or "unconditionally")
+        if bare_paths:
+            ok3 = not bad_paths
+            ctx.verdict(ok3, "R-DROP", f"{POOLSUM}.cleanup::bare-summand-iff-no-index", tree.loc(ret),
+                        "PoolSum.cleanup returns the bare summand only when no summation index is retained",
+                        None if ok3 else {"returned-when": sorted(set(bad_paths))[:4]})
+        if sum_values:
+            ok2 = all(any(isinstance(a, ast.Starred) for a in v.args) and all(whole(a.value) for a in v.args if isinstance(a, ast.Starred)) for v in sum_values)
+            ctx.verdict(ok2, "R-DROP", f"{POOLSUM}.cleanup::return-indices", tree.loc(ret), "PoolSum.cleanup rebuilds the sum with all retained indices")
 
 
-# --------------------------------------------------------------------------- R-BINDSUBST
-def check_binding_aware_substitution(ctx: Check, tree: Tree, sites: dict) -> None:
-    """R-BINDSUBST: wherever PoolSum substitutes values for its OWN index symbols into the summand it must use the
-    binding-aware primitive (`subs`, which consults the `_eval_subs` guard of nested sums).  `xreplace` is purely
-    structural: it also rewrites an index of the same name that is bound by a nested PoolSum.  ``sites``: the
-    substitution calls observed while evaluate() / cleanup() were interpreted on the model sums."""
-    for (qual, how), where in sorted(sites.items(), key=lambda kv: kv[0]):
-        ok = how == "subs"
-        node = where.node if isinstance(where, FuncInfo) else None
-        ctx.verdict(ok, "R-BINDSUBST", f"{qual}::{how} of own indices", tree.loc(node) if node is not None else "src/ampform/sympy/__init__.py",
-                    f"{qual}: substitutes the sum's own index symbols into the summand with {how}()",
+def check_binding_aware_substitution(ctx: Check, tree: Tree) -> None:
+    """R-BINDSUBST: wherever a binder class substitutes values for its OWN index symbols into
+    the summand it must use the binding-aware primitive (`subs`, which consults the
+    `_eval_subs` guard of nested sums).  `xreplace` is purely structural: it also rewrites
+    an index of the same name that is bound by a nested PoolSum."""
+    cls = tree.cls(POOLSUM)
+    sites: dict[tuple, tuple] = {}
+    for name, m in sorted(cls.methods.items()):
+        rd = RD(m.node)
+        inl = CallInliner(tree, m, rd)
+        # every expression a statement of the method evaluates, in closed form: locals read through (`summand =
+        # self.expression; summand.subs(...)` is the same call) and helper methods replaced by the value they return
+        exprs = []
+        for st in walk_function(m.node, nested=False):
+            if isinstance(st, (ast.Return, ast.Assign, ast.AnnAssign, ast.AugAssign, ast.Expr)) and st.value is not None:
+                exprs.append(st.value)
+            elif isinstance(st, (ast.If, ast.While)):
+                exprs.append(st.test)
+            elif isinstance(st, ast.For):
+                exprs.append(st.iter)
+        for e in exprs:
+            for node in ast.walk(inl.expr(e)):
+                if not (isinstance(node, ast.Call) and isinstance(node.func, ast.Attribute) and node.func.attr in {"subs", "xreplace", "replace"}):
+                    continue
+                if unparse(node.func.value) not in {"self.expression", "self.args[0]"} or not node.args:
+                    continue
+                # does the mapping consist of this sum's own index symbols?
+                arg = node.args[0]
+                texts = [unparse(arg)]
+                for n_ in ast.walk(arg):
+                    if isinstance(n_, ast.Name) and isinstance(n_.ctx, ast.Load):
+                        closure = rd.closure(rd.reaching(getattr(n_, "_origin", n_)))
+                        texts += [unparse(inl.expr(d.value)) for d in closure if isinstance(d.value, ast.AST)]
+                        texts += [unparse(inl.expr(d.node.iter)) for d in closure if d.kind == "for" and hasattr(d.node, "iter")]
+                if not any("self.indices" in t or "self.args[1:]" in t for t in texts):
+                    continue
+                where = tree.func_of(node) or m  # the method the call is written in (a helper that was read through)
+                sites.setdefault((tree.loc(node), getattr(node, "col_offset", 0)), (node, where))
+    for (loc, _), (node, where) in sorted(sites.items()):
+        ok = node.func.attr == "subs"
+        ctx.verdict(ok, "R-BINDSUBST", f"{where.qual}::{node.func.attr} of own indices", loc,
+                    f"PoolSum.{where.name}: `{unparse(node)[:60]}` substitutes the sum's own index symbols into the summand with {node.func.attr}()",
                     None if ok else "xreplace ignores binding: PoolSum(i + PoolSum(i**2, (i, (1, 2))), (i, (3,))).cleanup() rewrites the inner, shadowed index -> value 21 instead of 8")
     if len(sites) < 2:
-        raise AnalysisError(f"only {len(sites)} substitutions of own indices observed in PoolSum (evaluate and cleanup confirmed)")
+        raise AnalysisError(f"only {len(sites)} substitutions of own indices found in PoolSum (evaluate and cleanup confirmed)")
 
 
 def check_external_expansion(ctx: Check, tree: Tree) -> None:
-    """R-BINDSUBST outside the class.  (1) ``HelicityModel.expression`` unfolds the pool sums of the intensity: it is
-    interpreted on a model whose intensity nests a sum that binds the same symbol again, and must denote the same
-    value.  (2) any function of the package that substitutes the index symbols of a PoolSum (taken from
-    ``<sum>.indices``) into its summand (``<sum>.expression``) with a structural primitive is a hand-written expansion
-    next to PoolSum.evaluate() that disagrees with it for shadowed indices (positive evidence only: what this scan does
-    not recognise is covered by (1))."""
-    world = PoolSumWorld(tree)
-    m = Models(world)
-    v = m.v
-    model_cls = tree.classes.get(MODEL)
-    prop = tree.lookup_method(model_cls, "expression") if model_cls is not None else None
-    if prop is None:
-        raise AnalysisError("vanished anchor: HelicityModel.expression")
-    w = world.w
-    amp = w.node("A", m.i)  # an amplitude symbol A[i] ...
-    amp_definition = m.F(m.i, m.x)
-    inner = m.sum(w.node("Abs2", w.node("A", m.i)), (m.i, (v["b1"], v["b2"])))
-    cases = [
-        ("a sum whose summand contains a sum over the same symbol", m.sum(m.G(m.i, inner), (m.i, (v["a1"], v["a2"]))), {}),
-        ("a sum inside an expression", w.node("Mul", m.x, m.sum(m.F(m.j, m.x), (m.j, (v["b1"], v["b2"])))), {}),
-        ("amplitude symbols are replaced by their definitions", m.sum(w.node("Abs2", amp), (m.i, (v["a1"], v["a2"]))),
-         {w.node("A", v["a1"]): m.F(v["a1"], m.x), w.node("A", v["a2"]): m.F(v["a2"], m.x)}),
-    ]
-    del amp_definition
-    problems = []
-    for label, intensity, amplitudes in cases:
-        model = Instance("HelicityModel", model_cls, {"intensity": intensity, "amplitudes": amplitudes}, kinds={MODEL})
-        want = world.normal(world.w.xreplace(_expand_all(world, intensity), amplitudes))
-        got = _interpret("HelicityModel.expression", lambda model=model: world.ex.getattr(model, "expression"))
-        if isinstance(got, ModelRaise):
-            problems.append(f"{label}: raises {got}")
-        elif world.normal(got) != want or any(world.is_sum(n) for n in world.postorder(got)):
-            problems.append(f"{label}: expression = {world.show(world.normal(got))[:150]}, the intensity denotes {world.show(want)[:150]}"
-                            + (" (a pool sum is left unexpanded)" if any(world.is_sum(n) for n in world.postorder(got)) else ""))
-    ctx.verdict(not problems, "R-BINDSUBST", f"{prop.qual}::unfolds-like-evaluate", tree.loc(prop.node),
-                "HelicityModel.expression unfolds the pool sums of the intensity to the value PoolSum.evaluate() gives (shadowed index included)", problems or None)
+    """R-BINDSUBST outside the class: any function of the package that substitutes the index symbols
+    of a PoolSum (taken from `<sum>.indices`) into its summand (`<sum>.expression`) - a hand-written
+    expansion next to PoolSum.evaluate(), e.g. inside HelicityModel.expression - must use subs();
+    R-SINGLE: and whoever unfolds PoolSums should go through PoolSum.evaluate()."""
     n = 0
     for q, fn in sorted(tree.funcs.items()):
         if not q.startswith("ampform") or fn.outer is not None or (fn.cls is not None and fn.cls.qual == POOLSUM):
@@ -593,95 +737,54 @@ def check_external_expansion(ctx: Check, tree: Tree) -> None:
         ctx.ok("R-BINDSUBST", "src/ampform", "no function outside PoolSum substitutes the indices of a PoolSum into its summand (all expansions go through PoolSum.evaluate)")
 
 
-def _expand_all(world: PoolSumWorld, x):
-    """The expression with every pool sum (at any depth) replaced by the explicit sum (specification side)."""
-    if isinstance(x, (tuple, list)):
-        return tuple(_expand_all(world, c) for c in x)
-    if world.is_sum(x):
-        idx = world.indices(x) or []
-        symbols = [s for s, _ in idx]
-        terms = [_expand_all(world, world.ref_subs(x.attrs["args"][0], dict(zip(symbols, combo)))) for combo in itertools.product(*[p for _, p in idx])]
-        return world.w.node("Add", *terms) if len(terms) != 1 else terms[0]
-    kids = world.w.children(x)
-    if not kids:
-        return x
-    return world.w.rebuild(x, tuple(_expand_all(world, c) for c in kids))
-
-
-# --------------------------------------------------------------------------- R-BINDER (substitution)
 def check_subs_returns(ctx: Check, tree: Tree) -> None:
-    """R-BINDER: substitution into a model sum, through SymPy's protocol (``Basic.subs`` asks ``_eval_subs`` first and
-    otherwise substitutes in every argument - the summand AND the pools).  For an own index symbol the sum must come
-    back unchanged; for anything else the result must equal the binding-aware substitution (a hand-made result that
-    only visits the summand leaves the pools untouched: PoolSum(a**i, (i, (-J, J))).subs(J, 2); a ``return self`` on
-    any other condition skips real substitutions)."""
-    world = PoolSumWorld(tree)
-    cls = world.cls
-    m = Models(world)
-    v = m.v
-    hook = tree.lookup_method(cls, "_eval_subs")
-    fs = tree.lookup_method(cls, "free_symbols")
-    where = tree.loc(hook.node) if hook is not None else tree.loc(fs.node) if fs is not None else tree.loc(cls.node)
-    new = v["d1"]
-    inner_k = m.sum(m.F(m.k, m.y), (m.k, (v["c1"], v["c2"])))
-    main = m.sum(m.G(m.i, m.j, m.x, m.k, inner_k), (m.i, (v["a1"], v["a2"])), (m.j, (m.J, v["b1"])))
-    plain_sum = m.sum(m.F(m.x), )
-    for inst in (main, plain_sum):
-        if isinstance(inst, ModelRaise):
-            raise AnalysisError(f"PoolSum(...) raises {inst} for a model sum")
-    own_problems, other_problems = [], []
-    for inst, old, role in ((main, m.i, "the first own index"), (main, m.j, "the last own index")):
-        got = _interpret("PoolSum.subs", lambda inst=inst, old=old: world.ex.call_method(inst, "subs", [old, new]))
-        if isinstance(got, ModelRaise):
-            own_problems.append(f"substituting {role}: raises {got}")
-        elif got is not inst:
-            own_problems.append(f"{world.text(inst)}.subs({world.text(old)}, {world.text(new)}) = {world.text(got)[:140]}: {role} is rewritten")
-    if fs is not None:
-        ctx.verdict(not own_problems, "R-BINDER", f"{POOLSUM}::binder-without-subs-guard", tree.loc(fs.node),
-                    "PoolSum.free_symbols removes the index symbols (bound symbols) - substitution leaves them alone: "
-                    + (f"{hook.qual} answers `self` for an own index" if hook is not None else "no _eval_subs/_subs/subs override: Basic.subs rewrites the bound index symbols"),
-                    None if not own_problems else own_problems + ["PoolSum(f(i,j),(i,(1,2)),...).subs(i,5) rewrites the bound index; evaluate() itself substitutes with .subs, so a nested sum with a shadowed index is corrupted"])
-    elif own_problems:
-        ctx.violation("R-BINDER", f"{POOLSUM}::binder-without-subs-guard", where, "substituting an own index symbol of a PoolSum changes the sum", own_problems)
-    others = [
-        (main, m.x, "a free symbol of the summand"),
-        (main, m.J, "a symbol that occurs in a pool"),
-        (main, m.k, "a symbol that is free in the summand and bound by a nested sum"),
-        (main, m.y, "a free symbol of a nested sum"),
-        (main, m.z, "a symbol that does not occur"),
-        (plain_sum, m.x, "a free symbol of a sum without indices"),
-    ]
-    for inst, old, role in others:
-        want = world.normal(world.ref_subs(inst, {old: new}))
-        got = _interpret("PoolSum.subs", lambda inst=inst, old=old: world.ex.call_method(inst, "subs", [old, new]))
-        if isinstance(got, ModelRaise):
-            other_problems.append(f"substituting {role}: raises {got}")
-        elif world.normal(got) != want:
-            other_problems.append(f"{world.text(inst)}.subs({world.text(old)}, {world.text(new)}) for {role} = {world.text(got)[:140]}, expected {world.text(world.ref_subs(inst, {old: new}))[:140]}")
-    key = f"{hook.qual}::returns" if hook is not None else f"{POOLSUM}._eval_subs::returns"
-    ctx.verdict(not other_problems, "R-BINDER", key, where,
-                "PoolSum._eval_subs: `self` only for an own index, otherwise SymPy substitutes in the summand and in the pools", other_problems or None)
-    check_free_symbols_fresh(ctx, tree)
+    """R-BINDER (returns): PoolSum._eval_subs may only answer `self` for a bound symbol and otherwise
+    leave the substitution to SymPy (`return None`), which substitutes in the summand AND in the value
+    pools.  A hand-made result that only visits the summand leaves the pools untouched
+    (PoolSum(a**i, (i, (-J, J))).subs(J, 2)); a `return self` on any other condition (e.g. "old is not in
+    my - possibly stale - free symbols") skips real substitutions."""
+    cls = tree.cls(POOLSUM)
+    m = cls.methods.get("_eval_subs")
+    if m is None:
+        raise AnalysisError("vanished anchor: PoolSum._eval_subs")
+    self_, old = m.params[0], m.params[1]
+    problems = []
+    for r in [r for r in walk_function(m.node, nested=False) if isinstance(r, ast.Return)]:
+        v = r.value
+        guards = [a for a in ancestors(r) if isinstance(a, ast.If)]
+        if v is None or (isinstance(v, ast.Constant) and v.value is None):
+            continue
+        if isinstance(v, ast.Name) and v.id == self_:
+            own = any(any(isinstance(n, ast.Attribute) and n.attr == "indices" for n in ast.walk(g.test)) or _test_uses_bound_local(m, g.test) for g in guards)
+            foreign = [unparse(g.test) for g in guards if not (any(isinstance(n, ast.Attribute) and n.attr in {"indices", "bound_symbols"} for n in ast.walk(g.test)) or _test_uses_bound_local(m, g.test))]
+            if not own or foreign:
+                problems.append(f"`return self` under `{' and '.join(unparse(g.test) for g in guards) or 'no condition'}` - not (only) the own-index test")
+            continue
+        problems.append(f"`{unparse(r)[:70]}` builds its own result: the value pools of the indices are not substituted")
+    ctx.verdict(not problems, "R-BINDER", f"{m.qual}::returns", tree.loc(m.node),
+                "PoolSum._eval_subs: `self` only for an own index, otherwise None (SymPy substitutes in the summand and in the pools)", problems or None)
+    fs = cls.methods.get("free_symbols")
+    decs = [unparse(d) for d in fs.node.decorator_list] if fs is not None else []
+    ok = fs is not None and decs == ["property"]
+    ctx.verdict(ok, "R-FREE", f"{POOLSUM}.free_symbols::recomputed", tree.loc(fs.node) if fs else tree.loc(cls.node),
+                "PoolSum.free_symbols is a plain property: a fresh set on every access (a cached set is shared, mutable state of an immutable expression)",
+                None if ok else f"decorators {decs}: callers routinely modify the set they get (`symbols = expr.free_symbols; symbols |= ...`)")
 
 
 def run(ctx: Check, tree: Tree) -> None:
     ctx.decided += [
-        "R-BINDER: every expression class that removes bound symbols from free_symbols guards substitution of those symbols (PoolSum: decided on model sums through SymPy's subs protocol)",
-        "R-SUMSHAPE: PoolSum.evaluate() / doit() of every model sum (0-3 indices, singleton / repeated / zero values, nested and directly nested sums with shadowed index) denote the sum of the summand over the cartesian product of the pools",
-        "R-FREE: PoolSum.free_symbols is the free symbols of summand and pools minus the own index symbols, a fresh set per access",
-        "R-BINDSUBST: PoolSum substitutes its own index symbols into the summand with the binding-aware subs(), never with xreplace(); HelicityModel.expression unfolds like evaluate()",
-        "R-DROP: cleanup() of every model sum denotes the same value (an index is retained, substituted by its single value, or compensated by its pool size)",
+        "R-BINDER: every expression class that removes bound symbols from free_symbols guards substitution of those symbols",
+        "R-SUMSHAPE: PoolSum.evaluate is Add over itertools.product of all pools with zip(index symbols, combination) substituted into the summand; doit delegates to it",
+        "R-FREE: the subtrahend of PoolSum.free_symbols is exactly the index symbols",
+        "R-BINDSUBST: PoolSum substitutes its own index symbols into the summand with the binding-aware subs(), never with xreplace()",
+        "R-DROP: on every path of cleanup() an index is retained, substituted by its single value, or compensated by its pool size",
     ]
     ctx.not_decided += ["evaluation for arbitrary summands (SymPy's subs on the summand)", "three-level nesting inside HelicityModel.expression"]
-    ctx.assumptions += [
-        "sympy.Basic.subs consults _eval_subs before descending into args; ExprWithLimits (Sum, Integral) guards its own bound variables",
-        "the methods of PoolSum are interpreted on model sums (sa/pyexec.py); SymPy itself is represented by a model: hash-consed nodes, structural xreplace, sequential subs, free_symbols as the union over the arguments",
-    ]
-    sites: dict = {}
+    ctx.assumptions += ["sympy.Basic.subs consults _eval_subs before descending into args; ExprWithLimits (Sum, Integral) guards its own bound variables"]
     ctx.section(check_binder, ctx, tree)
     ctx.section(check_free_symbols, ctx, tree)
-    sites.update(ctx.section(check_evaluate, ctx, tree) or {})
-    sites.update(ctx.section(check_cleanup, ctx, tree) or {})
-    ctx.section(check_binding_aware_substitution, ctx, tree, sites)
+    ctx.section(check_evaluate, ctx, tree)
+    ctx.section(check_cleanup, ctx, tree)
+    ctx.section(check_binding_aware_substitution, ctx, tree)
     ctx.section(check_external_expansion, ctx, tree)
     ctx.section(check_subs_returns, ctx, tree)
